@@ -243,7 +243,19 @@ func (w *worker[T, JobType]) Errs() <-chan error {
 func (w *worker[T, JobType]) processNextJob() error {
 	// Reserve the processing slot before the job leaves the queue, so the job is
 	// always either pending or counted as processing for WaitUntilFinished.
-	w.curProcessing.Add(1)
+	// The slot is only taken while below the limit: the event loop of a previous run can
+	// still be finishing its iteration when Restart starts the next one.
+	for {
+		cur := w.curProcessing.Load()
+		if cur >= w.concurrency.Load() {
+			return nil
+		}
+
+		if w.curProcessing.CompareAndSwap(cur, cur+1) {
+			break
+		}
+	}
+
 	dispatched := false
 	defer func() {
 		// nothing was handed to a worker, give the slot back
